@@ -43,6 +43,10 @@ Fixpoint mapi_from {A B} (i : nat) (f : nat -> A -> B) (l : list A) : list B :=
   | x :: r => f i x :: mapi_from (S i) f r
   end.
 
+(* offset accumulated so far by counter (k, i): what cache_info() shows as reminders[name][(k, i)] *)
+Definition spec_offset (k : key) (i : nat) (h : hist) : Z :=
+  match run_values k i h with [] => 0 | p :: r => offset p r end.
+
 Definition spec_value (h : hist) (k : key) (i : nat) (v : Z) : Z := v + offset v (run_values k i h).
 Definition spec_tuple (h : hist) (k : key) (t : tuple) : tuple := mapi_from 0 (spec_value h k) t.
 Definition spec_dict (h : hist) (d : dict) : dict :=
@@ -126,14 +130,41 @@ Definition untouched (f : bytes) (ops : list wop) : bool := forallb (fun o => ne
 Definition answers_for {A} (f : bytes) (ops : list wop) (tr : list A) : list A :=
   map snd (filter (fun p => touches f (fst p)) (combine ops tr)).
 
-(* ------------------------------------------------ two threads: what is demanded
-   The raw kernel counters are what the platform reads show, in the order of the
-   reads.  The answer demanded for a call is therefore fixed at its read: it is
-   the sequential answer against the history of the listings READ so far
-   (nowrap=True ones, per name, since the last clear); it is handed out when
-   the call returns. *)
+(* ------------------------------------------------ threads: what is demanded
+   (a) Linearisation.  Overlapping calls may take effect in either order; a call
+   takes effect somewhere between its platform read and its return.  [lin] places
+   every call at its wrap step and every cache_clear at its own step: a sequential
+   history of the execution.  Demanded: the answers are those of the sequential
+   specification on that history, AND the nowrap=True listings appear in it in the
+   order in which they were read (the raw kernel counters are what the reads show,
+   in read order) -- [reads_nowrap] vs [nowrap_calls]. *)
+Fixpoint lin (p : slots pop) (sched : list cstep) : list (nat * pop) :=
+  match sched with
+  | [] => []
+  | CRead tid f per nowrap raw :: rest => lin (pset p tid (Some (PCall f per nowrap raw))) rest
+  | CWrap tid :: rest =>
+    match pget p tid with
+    | Some call => (tid, call) :: lin (pset p tid None) rest
+    | None => lin p rest
+    end
+  | CClear tid f :: rest => (tid, PClear f) :: lin p rest
+  end.
+Definition is_nw (o : pop) : bool := match o with PCall _ _ true _ => true | _ => false end.
+Definition nowrap_calls (l : list pop) : list pop := filter is_nw l.
+Fixpoint reads_nowrap (sched : list cstep) : list pop :=
+  match sched with
+  | [] => []
+  | CRead _ f per true raw :: rest => PCall f per true raw :: reads_nowrap rest
+  | _ :: rest => reads_nowrap rest
+  end.
+
+(* (b) Read-time reading, used for the refutation of the code without the lock and
+   by the harness: the answer demanded for a call is fixed at its read -- the
+   sequential answer against the listings READ so far -- and handed out when the
+   call returns.  (Coincides with (a) when no cache_clear overlaps a nowrap=True
+   call in flight; an overlapping clear may be ordered either way, (a) covers it.) *)
 Definition spec_cstep (g : ghost) (sp : slots pobs) (c : cstep)
-  : (ghost * slots pobs) * option (bool * pobs) :=
+  : (ghost * slots pobs) * option (nat * pobs) :=
   match c with
   | CRead tid f per nowrap raw =>
     let r := spec_pstep g (PCall f per nowrap raw) in ((fst r, pset sp tid (Some (snd r))), None)
@@ -141,7 +172,7 @@ Definition spec_cstep (g : ghost) (sp : slots pobs) (c : cstep)
     ((g, pset sp tid None), match pget sp tid with Some a => Some (tid, a) | None => None end)
   | CClear tid f => ((dremove (fname f) g, sp), Some (tid, PDone))
   end.
-Fixpoint spec_ctrace (g : ghost) (sp : slots pobs) (sched : list cstep) : list (bool * pobs) :=
+Fixpoint spec_ctrace (g : ghost) (sp : slots pobs) (sched : list cstep) : list (nat * pobs) :=
   match sched with
   | [] => []
   | c :: rest =>
@@ -162,12 +193,41 @@ Fixpoint sched_ok (p : slots pop) (sched : list cstep) : bool :=
   | CWrap tid :: rest => is_some (pget p tid) && sched_ok (pset p tid None) rest
   | CClear tid _ :: rest => negb (is_some (pget p tid)) && sched_ok p rest
   end.
-(* no cache_clear while a nowrap=True call is in flight (an overlapping clear may be
-   ordered either way; that case is left out of the statement) *)
-Fixpoint clear_ok (p : slots pop) (sched : list cstep) : bool :=
+(* no cache_clear while a nowrap=True call is in flight (i.e. while _nowrap_lock is held) *)
+Fixpoint clear_ok (holder : option nat) (sched : list cstep) : bool :=
   match sched with
   | [] => true
-  | CRead tid f per nowrap raw :: rest => clear_ok (pset p tid (Some (PCall f per nowrap raw))) rest
-  | CWrap tid :: rest => clear_ok (pset p tid None) rest
-  | CClear _ _ :: rest => lock_free p && clear_ok p rest
+  | CRead tid _ _ nowrap _ :: rest => clear_ok (if nowrap then Some tid else holder) rest
+  | CWrap tid :: rest => clear_ok (release holder tid) rest
+  | CClear _ _ :: rest => (match holder with None => true | Some _ => false end) && clear_ok holder rest
+  end.
+
+(* ------------------------------------------------ vocabulary: public calls that feed f's history *)
+Definition fn_eqb (a b : fn) : bool := match a, b with Net, Net | Disk, Disk => true | _, _ => false end.
+Definition feeds (f : fn) (o : pop) : bool :=
+  match o with PCall f' _ nowrap _ => nowrap && fn_eqb f' f | PClear _ => false end.
+Definition no_feed (f : fn) (ops : list pop) : bool := forallb (fun o => negb (feeds f o)) ops.
+
+(* ------------------------------------------------ tuple widths that change under one name
+   What the code does: the inner loop runs over the NEW tuple and indexes the OLD one, so a
+   tuple that is not longer than the previous tuple of its key is handled (the surplus old
+   fields are ignored), a longer one raises IndexError.  [grows prev d] = some key of d present
+   in the previous snapshot comes with a longer tuple.  The total answer sequence (ending at
+   the first exception, after which the model says nothing): *)
+Definition grows (prev d : dict) : bool :=
+  existsb (fun kt => match lookup (fst kt) prev with
+                     | Some ot => Nat.ltb (length ot) (length (snd kt))
+                     | None => false end) d.
+Definition keys_ok (o : wop) : bool := match o with WRun _ d => nodupb (keys d) | _ => true end.
+Definition raises (g : ghost) (o : wop) : bool :=
+  match o with
+  | WRun f d => match gget g f with prev :: _ => grows prev d | [] => false end
+  | _ => false
+  end.
+Fixpoint spec_wtrace_total (g : ghost) (ops : list wop) : list (outcome wobs) :=
+  match ops with
+  | [] => []
+  | o :: rest =>
+    if raises g o then [Exc IndexError]
+    else Val (snd (spec_wstep g o)) :: spec_wtrace_total (fst (spec_wstep g o)) rest
   end.
